@@ -47,6 +47,8 @@ type Script struct {
 	// scripted members (seen through a probe that records the context it is given and hands readers
 	// through untouched) and, as its member 1, a registry that fails at once
 	Nested bool `json:"nested,omitempty"`
+	// Empty: the content the members serve is empty (descriptor size 0)
+	Empty bool `json:"empty,omitempty"`
 	// ValueReaders: the members hand out readers whose dynamic type is a struct value, not a pointer
 	ValueReaders bool `json:"value_readers,omitempty"`
 	// ReadAll: the returned reader is read to its end before it is closed
@@ -83,7 +85,7 @@ func (r *reader) Close() error {
 	return nil
 }
 func (r *reader) Descriptor() ociregistry.Descriptor {
-	return ociregistry.Descriptor{Digest: digest.FromString("x"), Size: 1, MediaType: fmt.Sprintf("member/%d", r.member)}
+	return ociregistry.Descriptor{Digest: digest.FromString("x"), Size: int64(r.r.Size()), MediaType: fmt.Sprintf("member/%d", r.member)}
 }
 
 type member struct {
@@ -97,6 +99,7 @@ type member struct {
 	closeErr bool
 	// valueReaders: hand out struct-valued readers
 	valueReaders bool
+	empty        bool
 
 	entered  bool
 	ctx      context.Context
@@ -137,7 +140,11 @@ func (m *member) read(ctx context.Context) (ociregistry.BlobReader, error) {
 	if !m.ok {
 		return nil, m.failure()
 	}
-	r := &reader{member: m.id, ctx: ctx, r: strings.NewReader("x"), closeErr: m.closeErr}
+	content := "x"
+	if m.empty {
+		content = ""
+	}
+	r := &reader{member: m.id, ctx: ctx, r: strings.NewReader(content), closeErr: m.closeErr}
 	m.readers = append(m.readers, r)
 	if m.valueReaders {
 		return valueReader{r}, nil
@@ -220,7 +227,7 @@ func run(s Script, v *vt.V) {
 		base := bubbleGoroutines()
 		ms := [2]*member{}
 		for i := range ms {
-			ms[i] = &member{id: i, ok: s.OK[i], mode: s.Mode[i], release: make(chan struct{}), closeErr: s.CloseErr, ctxErr: s.CtxErr, valueReaders: s.ValueReaders}
+			ms[i] = &member{id: i, ok: s.OK[i], mode: s.Mode[i], release: make(chan struct{}), closeErr: s.CloseErr, ctxErr: s.CtxErr, valueReaders: s.ValueReaders, empty: s.Empty}
 			if s.Timed {
 				ms[i].delay = time.Duration(s.Delay[i]) * time.Millisecond
 			}
@@ -641,7 +648,7 @@ func TestPropSchedules(t *testing.T) {
 	prop = &vt.Prop[Script]{
 		ID:   "C16",
 		Name: "UnifyConcurrentSchedules",
-		Rule: "complete enumeration, executed in synctest bubbles with every event separated by synctest.Wait: 5 read entry points x 2x2 member outcomes x both completion orders x caller cancellation {none, before any answer, between the answers, after both, after the reader was closed} x returned reader closed before / after the loser answers x reader Close succeeding / failing x the returned reader read to its end before it is closed or not, schedules without caller cancellation also under a caller context that can never be cancelled, plus members that answer only once their context is cancelled (one or both) and members that answer at the same instant; every schedule also with the unifier under test laid over another concurrent unifier (seen through a probe that records the context it is handed) and a registry that is down; reader schedules also with members whose readers are struct values rather than pointers; oracle = the call returns exactly when the ordered events decide it, with the first successful answer (error only if both failed or the caller cancelled first; when a cancellation-driven answer coincides with the cancellation either is accepted); the chosen member's context is live until the returned reader is closed and cancelled afterwards (resolve-style: cancelled on return); every reader of the member not chosen is closed; both members' contexts end cancelled; the number of goroutines in the bubble is back at its baseline; non-trivial = some member succeeds or the caller cancels; distinct = the schedule",
+		Rule: "complete enumeration, executed in synctest bubbles with every event separated by synctest.Wait: 5 read entry points x 2x2 member outcomes x both completion orders x caller cancellation {none, before any answer, between the answers, after both, after the reader was closed} x returned reader closed before / after the loser answers x reader Close succeeding / failing x the returned reader read to its end before it is closed or not, schedules without caller cancellation also under a caller context that can never be cancelled, plus members that answer only once their context is cancelled (one or both) and members that answer at the same instant; every schedule also with the unifier under test laid over another concurrent unifier (seen through a probe that records the context it is handed) and a registry that is down; reader schedules also with members whose readers are struct values rather than pointers, and with empty content; oracle = the call returns exactly when the ordered events decide it, with the first successful answer (error only if both failed or the caller cancelled first; when a cancellation-driven answer coincides with the cancellation either is accepted); the chosen member's context is live until the returned reader is closed and cancelled afterwards (resolve-style: cancelled on return); every reader of the member not chosen is closed; both members' contexts end cancelled; the number of goroutines in the bubble is back at its baseline; non-trivial = some member succeeds or the caller cancels; distinct = the schedule",
 		Run:  run,
 	}
 	shard, shards := vt.Shard()
@@ -668,6 +675,9 @@ func TestPropSchedules(t *testing.T) {
 				sv := s0
 				sv.ValueReaders = true
 				variants = append(variants, sv)
+				se := s0
+				se.Empty = true
+				variants = append(variants, se)
 			}
 			for _, s := range variants {
 				k++
